@@ -38,16 +38,51 @@ def e2_slices():
         ),
         TABLE,
     )
+    out["sort_terminals_body"] = (slicer.fn_body(t, r"fn sort_terminals\s*\(\s*&mut self\s*\)", "sort_terminals"), TABLE)
+    lr = slicer.read(LRPARSER)
+    NEXT_TOKEN = r"fn next_token\s*\("
+    sel = slicer.region(lr, NEXT_TOKEN, r"let next_token = if D::longest_match\(\)", r"\n            \};", "next_token/selection")
+    out["lr_select"] = ("{\n" + sel + "\nnext_token\n}\n", LRPARSER)
+    glr = slicer.read(GLRPARSER)
+    blk = slicer.block_after(glr, r"fn find_lookaheads\s*\(", r"if !tokens\.is_empty\(\)", "find_lookaheads/selection")
+    out["glr_select"] = ("{\nif !tokens.is_empty() " + blk + "\ntokens\n}\n", GLRPARSER)
+    return out
+
+
+RT_FILES = {
+    "context.rs": "context.rs",
+    "parser.rs": "parser.rs",
+    "builder.rs": "builder.rs",
+    "lexer.rs": "lexer.rs",
+    "lr/builder.rs": "lr_builder.rs",
+    "lr/context.rs": "lr_context.rs",
+    "lr/parser.rs": "lr_parser.rs",
+}
+
+
+def e4_rehost():
+    """Copies the real runtime source files byte for byte (whole-file slices)."""
+    out = {}
+    for src, dst in RT_FILES.items():
+        rel = "rustemo/src/" + src
+        out["rt/" + dst[:-3]] = (slicer.read(rel), rel)
     return out
 
 
 def prepare(crates, prop, tier, seed):
+    import gen_e4
     res = {"slices": {}, "generated": {}, "assumptions": []}
     try:
         for c in crates:
             copy_lock(c)
         if "e2" in crates:
-            res["slices"] = slicer.write_slices(os.path.join(VERIF, "kani", "e2", "gen"), e2_slices())
+            res["slices"].update(slicer.write_slices(os.path.join(VERIF, "kani", "e2", "gen"), e2_slices()))
+        if "e4" in crates:
+            res["slices"].update(slicer.write_slices(os.path.join(VERIF, "kani", "e4", "gen"), e4_rehost()))
+            gen_e4.build_native()
+            res["generated"] = gen_e4.generate_e4(tier)
     except SliceError as e:
+        res["error"] = str(e)
+    except gen_e4.GenError as e:
         res["error"] = str(e)
     return res
